@@ -207,8 +207,9 @@ pub fn cfg_strategy() -> BoxedStrategy<SvgCfg> {
         prop_oneof![2 => Just(None), 3 => image_string().prop_map(Some)],
         prop_oneof![2 => Just(None), 1 => (0usize..3).prop_map(Some)],
         warm_strategy(),
+        prop_oneof![1 => Just(0u8), 1 => any::<u8>()],
     )
-        .prop_map(|(margin, layers, module_color, background, image, bgs, warm)| SvgCfg { margin, layers, module_color, background, image, image_bg_shape: bgs, warm, ..SvgCfg::default() })
+        .prop_map(|(margin, layers, module_color, background, image, bgs, warm, order)| SvgCfg { margin, layers, module_color, background, image, image_bg_shape: bgs, warm, order, ..SvgCfg::default() })
         .boxed()
 }
 
